@@ -261,9 +261,11 @@ Inductive op :=
 | MeasureInplace (h : nat)
 | MeasureDestructive (h : nat)
 | Free (h : nat)
-| EprKeep (n : nat) (recv : bool) (nonphi : list bool)   (* nonphi: per pair, the link layer reports a state other than Phi+ *)
+  (* keep without post routine; sq: sequential=True; nonphi: per pair, the link layer reports a state other than Phi+ *)
+| EprKeep (n : nat) (recv : bool) (sq : bool) (nonphi : list bool)
 | EprContext (n : nat) (recv : bool) (b : body)
-| EprKeepSeq (n : nat) (recv : bool) (nonphi : list bool) (b : body)   (* keep with sequential=True and a post routine *)
+  (* keep with a post routine; sq: sequential=True *)
+| EprKeepSeq (n : nat) (recv : bool) (sq : bool) (nonphi : list bool) (b : body)
 | Flush.
 
 (* sequential keep: every pair gets the same ID (_create_ent_qubits, `sequential`):
@@ -346,9 +348,11 @@ Definition sdk_step (k : cfg) (s : sdk) (o : op) : res sdk :=
       | None => inr ErrDeadHandle
       | Some v => let s1 := emit s [EFree v] in inl (set_active s1 (deact h (active s1)))
       end
-  | EprKeep n recv nonphi =>
+  | EprKeep n recv sq nonphi =>
       if n =? 0 then inr ErrUnmodelled
-      else if max_q k <? n then inr ErrReject          (* _check_epr_args *)
+      else if sq && (1 <? n) then inr ErrReject        (* _check_epr_args: sequential needs a post routine *)
+      else if negb sq && (max_q k <? n) then inr ErrReject   (* _check_epr_args *)
+      (* one sequential pair gets the ID a non-sequential one gets *)
       else match ent_handles k s n with
            | inr e => inr e
            | inl (s1, vs) =>
@@ -377,13 +381,25 @@ Definition sdk_step (k : cfg) (s : sdk) (o : op) : res sdk :=
                inl (if keeps b then s2
                     else mkSdk (drop_last_handles n (active s2)) (next_h s) (pending s2) (last_new s2))
            end
-  | EprKeepSeq n recv nonphi b =>
+  | EprKeepSeq n recv sq nonphi b =>
+      let cs := if recv then nonphi else [] in
       if n =? 0 then inr ErrUnmodelled
-      else
-        (* _build_cmds_post_epr: pair after pair is delivered, corrected, handed to the
+      else if negb sq && (max_q k <? n) then inr ErrReject   (* _check_epr_args *)
+      else if sq || single_comm k then
+        (* sequential, or one communication qubit: all pairs through one ID.
+           _build_cmds_post_epr: pair after pair is delivered, corrected, handed to the
            post routine; if the routine consumed its qubit the n handles handed to the
            host are deactivated (they keep their numbers) *)
-        seq_run k s n (single_comm k) (if recv then nonphi else []) b
+        seq_run k s n (single_comm k) cs b
+      else
+        (* several communication qubits, not sequential: every pair has its own ID *)
+        match ent_handles k s n with
+        | inr e => inr e
+        | inl (s1, vs) =>
+            let s2 := emit s1 (pair_loop vs cs b) in
+            inl (if keeps b then s2
+                 else mkSdk (drop_last_handles n (active s2)) (next_h s2) (pending s2) (last_new s2))
+        end
   | Flush => inl s
   end.
 
@@ -453,12 +469,15 @@ Definition in_budget (k : cfg) (s : sdk) (o : op) : bool :=
   | NewQubit => length (active s) + 1 <=? budget k
   | Gate1 h | MeasureInplace h | MeasureDestructive h | Free h => live s h
   | Gate2 h1 h2 => live s h1 && live s h2 && negb (h1 =? h2)
-  | EprKeep n _ _ => (1 <=? n) && (length (active s) + n <=? budget k)
+  | EprKeep n _ _ _ => (1 <=? n) && (length (active s) + n <=? budget k)
     (* a block that keeps its qubit: legal for several pairs only when each pair has its own ID *)
   | EprContext n _ b => (1 <=? n) && (length (active s) + n <=? budget k) &&
                         (negb (keeps b) || negb (single_comm k) || (n =? 1))
-  | EprKeepSeq n _ _ b => (1 <=? n) && (length (active s) + 1 <=? budget k) &&   (* one pair alive at a time *)
-                          (negb (keeps b) || (n =? 1))
+  | EprKeepSeq n _ sq _ b =>
+      (1 <=? n) &&
+      (if sq then length (active s) + 1 <=? budget k     (* one pair alive at a time *)
+       else length (active s) + n <=? budget k) &&
+      (negb (keeps b) || (n =? 1) || (negb sq && negb (single_comm k)))
   | Flush => true
   end.
 
